@@ -537,3 +537,22 @@ func (s *Sim) DirectedOwnInvoice(mpp bool) {
 		}
 	}
 }
+
+// DirectedSubSatMpp: a multi-path melt whose part is less than one sat (the quote is for one sat plus its
+// reserve; the fee limit handed to the backend comes out as zero, which an adapter must pass on as zero).
+func (s *Sim) DirectedSubSatMpp() {
+	for _, part := range []uint64{700, 1} {
+		q := s.NewMppMeltQuote(5000, part)
+		if q == nil {
+			continue
+		}
+		in := s.pickFor(q.Amount + q.Reserve)
+		if in == nil {
+			s.Fund(q.Amount + q.Reserve + 8)
+			in = s.pickFor(q.Amount + q.Reserve)
+		}
+		if in != nil {
+			s.Melt(q, in, Proofs(in), lnmodel.PayPlan{Answer: lnmodel.ASucceeded}, "")
+		}
+	}
+}
